@@ -184,8 +184,11 @@ class Obligations:
             try:
                 rc, out, err, dt = run_cmd(["lake", "env", "leanchecker"] + mods, cwd=LEAN, timeout=3000)
                 self.log.append(f"leanchecker {len(mods)} modules rc={rc} {dt:.1f}s")
-                if rc != 0:
-                    self.failed.append(("leanchecker", (out + err)[-1500:]))
+                if rc < 0 or rc in (137, 143):
+                    # killed by a signal (out of memory under load): the re-check did not run; like a timeout this is not a verdict
+                    self.log.append(f"leanchecker killed (rc={rc}; not counted)")
+                elif rc != 0:
+                    self.failed.append(("leanchecker", (out + err)[-1500:] or f"exit status {rc} without output"))
             except subprocess.TimeoutExpired:
                 self.log.append("leanchecker timed out (not counted)")
         self.obligations = len(thms)
